@@ -176,6 +176,15 @@ def check_one(case, rec):
                     ps = float(call("pc", pyrepseq.pc, sample))
                     if not close(ps, v, 1e-12):
                         raise Violation("pc-sample-vs-pc_n", f"pc(sample of {counts}) = {ps!r}, exact {v}")
+                    if N % 3 == 0 and K >= 2:
+                        # the same sample as a table: categories are whole rows; the second column has more distinct values
+                        # than the first, and the rows arrive interleaved
+                        import pandas as pd
+                        rows = [("xy"[i // 3 % 2] + "z" * (i // 6), "pqr"[i % 3]) for i, c in enumerate(counts) for _ in range(c)]
+                        rows = rows[::2] + rows[1::2]
+                        pt = float(call("pc", pyrepseq.pc, pd.DataFrame(rows, columns=["TRBV", "CDR3B"])))
+                        if not close(pt, v, 1e-12):
+                            raise Violation("pc-table-sample-vs-pc_n", f"pc(table of rows with counts {counts}) = {pt!r}, exact {v}")
                     ss = float(call("stdpc", pyrepseq.stdpc, sample))
                     sdn = float(call("stdpc_n", pyrepseq.stdpc_n, nz))
                     if not close(ss, sdn, 1e-9):
